@@ -1,159 +1,139 @@
 import StorageModel.C03.LayeredRefine
-import StorageModel.C03.Reject
 /-
-  C03, enlarged model: rejection lemmas (a write that would duplicate a unique value or put an
-  empty value into the non-nullable index fails with exactly that error), dump = derived dump,
-  no panic.
+  C03, enlarged model: rejection lemmas (a write whose only fault is a duplicate unique value / an
+  empty value for the non-nullable index fails with exactly that error), no panic, the model's
+  path function (index bucket paths pairwise distinct), dump = derived dump.
 -/
 namespace StorageModel.C03.Layered
 open StorageModel StorageModel.C03
+open StorageModel.C03.Layered.Spec (vName vAlias vRoles)
 
 /-- the entity an operation is about to store, when it passes the id / existence checks of the
     store it is issued through -/
 def targetEnt (sch : Schema) (s : State) : Op → Option (Id × Ent)
-  | .create .parent id v _ => C03.targetEnt s.base (.create id v)
+  | .create .parent id v _ => if id ≠ [] ∧ s.base.ents.lookup id = none then some (id, persistCreate v) else none
   | .create .child id v _ => if id ≠ [] ∧ hasExt s id = false then some (id, persistCreate v) else none
-  | .update .parent id v _ chk => C03.targetEnt s.base (.update id v (resolveOpt sch chk))
-  | .update .child id v _ chk =>
-    if hasExt s id = true then C03.targetEnt s.base (.update id v (resolveOpt sch chk)) else none
+  | .update via id v _ chk =>
+    if id = [] ∨ (via = .child ∧ hasExt s id = false) then none
+    else (s.base.ents.lookup id).map fun old => (id, persist old v (resolveOpt sch chk))
   | .delete _ _ => none
 
-/-- the new entity's name, or its non-empty alias, is currently held by another entity -/
+/-- the value of a registered unique index (`name`, or a non-empty `alias`) in the new entity is
+    currently held by another entity — and that is the only thing wrong with the write (when
+    several constraints object, the registration order decides which error is reported) -/
 def WouldDuplicate (sch : Schema) (s : State) (op : Op) : Prop :=
-  ∃ id e, targetEnt sch s op = some (id, e) ∧ e.name ≠ [] ∧
-    (HeldByOther (·.name) s.base.ents id e.name ∨
-     (e.alias.getD [] ≠ [] ∧ HeldByOther (fun e => e.alias.getD []) s.base.ents id (e.alias.getD [])))
+  ∃ id e, targetEnt sch s op = some (id, e) ∧
+    ((vName sch e ≠ [] ∧ HeldByOther (vName sch) s.base.ents id (vName sch e)) ∨
+     (vAlias sch e ≠ [] ∧ HeldByOther (vAlias sch) s.base.ents id (vAlias sch e))) ∧
+    (sch.regName = true → e.name ≠ []) ∧ [] ∉ vRoles sch e
 
-/-- the new entity's name (non-nullable unique index) is empty -/
+/-- the new entity's name is empty while the non-nullable unique index on it is registered — and
+    that is the only thing wrong with the write -/
 def WouldBeEmpty (sch : Schema) (s : State) (op : Op) : Prop :=
-  ∃ id e, targetEnt sch s op = some (id, e) ∧ e.name = []
+  ∃ id e, targetEnt sch s op = some (id, e) ∧ sch.regName = true ∧ e.name = [] ∧
+    ¬ (vAlias sch e ≠ [] ∧ HeldByOther (vAlias sch) s.base.ents id (vAlias sch e)) ∧ [] ∉ vRoles sch e
 
-theorem afterUpdate_recreate_dup {s : C03.State} {id : Id} {old e : Ent} (hi : C03.Inv s) (hold : s.ents.lookup id = some old)
-    (hne : e.name ≠ [])
-    (hd : HeldByOther (·.name) s.ents id e.name ∨
-      (e.alias.getD [] ≠ [] ∧ HeldByOther (fun e => e.alias.getD []) s.ents id (e.alias.getD []))) :
-    afterUpdate true (capture s id) { s with hasEnts := true, ents := s.ents.insert id e } id = .error .dup := by
-  simp only [afterUpdate, capture, hold, bind, Except.bind, Map.lookup_insert, if_true, evalName, evalAlias,
-    evalRoles, pure, Except.pure]
-  cases hun : uniqueAfter true false old.name e.name id s.uName with
-  | error x =>
-    rcases uniqueAfter_true_err (f := (·.name)) hi.uName hold hun with ⟨_, h1, _⟩ | ⟨rfl, _, _⟩
-    · exact absurd h1 hne
-    · rfl
-  | ok un =>
-    simp only
-    rcases uniqueAfter_true_okc (f := (·.name)) hi.uName hold hun with ⟨h, _⟩ | ⟨_, hnh⟩
-    · exact absurd h hne
-    · rcases hd with hd | ⟨hane, hd⟩
-      · exact absurd hd hnh
-      · cases hua : uniqueAfter true true (old.alias.getD []) (e.alias.getD []) id s.uAlias with
-        | error x =>
-          rcases uniqueAfter_true_err (f := fun e => e.alias.getD []) hi.uAlias hold hua with ⟨_, _, h3⟩ | ⟨rfl, _, _⟩
-          · cases h3
-          · rfl
-        | ok ua =>
-          rcases uniqueAfter_true_okc (f := fun e => e.alias.getD []) hi.uAlias hold hua with ⟨h, _⟩ | ⟨_, h⟩
-          · exact absurd h hane
-          · exact absurd hd h
-
-/-- the id of a base-store update target is not blank and the entity exists -/
-theorem targetEnt_update_some {s : C03.State} {i id : Id} {v : Vals} {chk : Option Checker} {e : Ent}
-    (ht : C03.targetEnt s (.update i v chk) = some (id, e)) : i ≠ [] := by
-  simp only [C03.targetEnt] at ht
-  split at ht
-  · cases ht
-  · assumption
-
-theorem updateChild_err {sch : Schema} {s : State} {id : Id} {v : Vals} {tag : Bytes} {chk : Option (List Bytes)} {x : Err}
-    (hid : id ≠ []) (hx : hasExt s id = true) (h : C03.update s.base id v (resolveOpt sch chk) = .error x) :
-    updateChild sch s id v tag chk = .error x := by
-  simp [updateChild, hid, hx, h]
-
-theorem update_err {sch : Schema} {s : State} {via : Sel} {id : Id} {v : Vals} {tag : Bytes} {chk : Option (List Bytes)}
-    {x : Err} (hid : id ≠ []) (hx : via = .child → hasExt s id = true)
-    (h : C03.update s.base id v (resolveOpt sch chk) = .error x) :
-    update sch s via id v tag chk = .error x := by
-  cases via with
-  | child => exact updateChild_err hid (hx rfl) h
-  | parent =>
-    simp only [update]
-    by_cases hx' : hasExt s id = true
-    · simp only [hx', if_true]; exact updateChild_err hid hx' h
-    · simp [hx', h]
-
-/-- an operation whose target the parent store's index protocol rejects with `x`, in each of the
-    three shapes the protocol is entered -/
-theorem stepRaw_rejects {sch : Schema} {s : State} {op : Op} {x : Err} {id : Id} {e : Ent}
-    (ht : targetEnt sch s op = some (id, e))
-    (hfresh : s.base.ents.lookup id = none →
-      afterUpdate true Captured.none { s.base with hasEnts := true, ents := s.base.ents.insert id e } id = .error x)
-    (hover : ∀ old, s.base.ents.lookup id = some old →
-      afterUpdate true (capture s.base id) { s.base with hasEnts := true, ents := s.base.ents.insert id e } id = .error x)
-    (hu : ∀ i v chk, C03.targetEnt s.base (.update i v chk) = some (id, e) → C03.update s.base i v chk = .error x)
-    (hcr : ∀ i v, C03.targetEnt s.base (.create i v) = some (id, e) → C03.create s.base i v = .error x) :
-    stepRaw sch s op = .error x := by
+/-- for an operation with a target the spec's verdict is `put` of that target -/
+theorem spec_step_target {sch : Schema} {s : State} {op : Op} {id : Id} {e : Ent}
+    (ht : targetEnt sch s op = some (id, e)) :
+    ∃ hb x, Spec.step sch (abs s) op = Spec.put sch (abs s) id e hb x := by
   cases op with
   | create via i v tag =>
     cases via with
     | parent =>
       simp only [targetEnt] at ht
-      simp [stepRaw, create, hcr i v ht]
+      split at ht
+      · next hc => cases ht; exact ⟨true, none, by simp [Spec.step, abs, hc.1, hc.2]⟩
+      · cases ht
     | child =>
       simp only [targetEnt] at ht
       split at ht
-      · next hc' =>
-        cases ht
-        simp only [stepRaw, create, createChild, hc'.1, if_false, hc'.2, Bool.false_eq_true]
-        cases hold : s.base.ents.lookup id with
-        | none =>
-          simp only [Option.isSome_none, Bool.false_eq_true, if_false]
-          rw [hfresh hold]
-        | some old =>
-          simp only [Option.isSome_some, if_true]
-          rw [hover old hold]
+      · next hc => cases ht; exact ⟨true, some tag, by simp [Spec.step, hc.1, hc.2]⟩
       · cases ht
   | update via i v tag chk =>
-    cases via with
-    | parent =>
-      simp only [targetEnt] at ht
-      exact update_err (via := .parent) (tag := tag) (targetEnt_update_some ht) (fun h => by cases h) (hu _ _ _ ht)
-    | child =>
-      simp only [targetEnt] at ht
-      split at ht
-      · next hx => exact update_err (via := .child) (tag := tag) (targetEnt_update_some ht) (fun _ => hx) (hu _ _ _ ht)
-      · cases ht
+    simp only [targetEnt] at ht
+    split at ht
+    · cases ht
+    · next hc =>
+      have hid : i ≠ [] := fun h => hc (Or.inl h)
+      cases hold : s.base.ents.lookup i with
+      | none => simp [hold] at ht
+      | some old =>
+        simp only [hold, Option.map_some, Option.some.injEq, Prod.mk.injEq] at ht
+        obtain ⟨rfl, rfl⟩ := ht
+        have hold' : (abs s).ents.lookup i = some old := hold
+        cases via with
+        | child =>
+          have hx : Spec.hasExt (abs s) i = true := by
+            cases h : hasExt s i with
+            | true => exact h
+            | false => exact absurd (Or.inr ⟨rfl, h⟩) hc
+          exact ⟨(abs s).hasEnts, some (if tagSelected sch chk then tag else ((abs s).ext.lookup i).getD []),
+            by simp [Spec.step, Spec.updateBoth, hid, hx, hold']⟩
+        | parent =>
+          by_cases hx : Spec.hasExt (abs s) i = true
+          · exact ⟨(abs s).hasEnts, some (if tagSelected sch chk then ((abs s).ext.lookup i).getD [] else ((abs s).ext.lookup i).getD []),
+              by simp [Spec.step, Spec.updateBoth, hid, hx, hold']⟩
+          · exact ⟨(abs s).hasEnts, none, by simp [Spec.step, hid, hx, hold']⟩
   | delete via i => simp [targetEnt] at ht
 
-theorem stepRaw_dup {sch : Schema} {s : State} {op : Op} (hi : Inv s) (hw : WouldDuplicate sch s op) :
-    stepRaw sch s op = .error .dup := by
-  obtain ⟨id, e, ht, hne, hd⟩ := hw
-  refine stepRaw_rejects ht ?_ ?_ ?_ ?_
-  · intro hfresh; exact afterUpdate_create_dup hi.base hfresh hne hd
-  · intro old hold; exact afterUpdate_recreate_dup hi.base hold hne hd
-  · intro i v chk ht'; exact C03.stepRaw_dup hi.base ⟨id, e, ht', hne, hd⟩
-  · intro i v ht'; exact C03.stepRaw_dup hi.base ⟨id, e, ht', hne, hd⟩
+/-- an operation whose target has exactly one kind of fault fails with that error -/
+theorem stepRaw_only {sch : Schema} {s : State} {op : Op} {id : Id} {e : Ent} {x0 : Err} (hi : Inv sch s)
+    (ht : targetEnt sch s op = some (id, e)) (hl : Listed sch s.base.ents id e x0)
+    (honly : ∀ x, Listed sch s.base.ents id e x → x = x0) : stepRaw sch s op = .error x0 := by
+  obtain ⟨hb, x', hsp⟩ := spec_step_target ht
+  have href := stepRaw_refines hi op
+  rw [hsp] at href
+  have hm := (mem_violations sch s.base.ents id e x0).2 hl
+  have hput : Spec.put sch (abs s) id e hb x' = .error (Spec.violations sch s.base.ents id e) := by
+    cases hv : Spec.violations sch s.base.ents id e with
+    | nil => rw [hv] at hm; cases hm
+    | cons a l => simp [Spec.put, abs, hv]
+  rw [hput] at href
+  cases hr : stepRaw sch s op with
+  | ok s' => rw [hr] at href; exact absurd href (by simp)
+  | error y =>
+    rw [hr] at href
+    simp only at href
+    rw [honly y ((mem_violations _ _ _ _ _).1 href)]
 
-theorem stepRaw_empty {sch : Schema} {s : State} {op : Op} (hi : Inv s) (hw : WouldBeEmpty sch s op) :
+theorem stepRaw_dup {sch : Schema} {s : State} {op : Op} (hi : Inv sch s) (hw : WouldDuplicate sch s op) :
+    stepRaw sch s op = .error .dup := by
+  obtain ⟨id, e, ht, hd, hne, hr⟩ := hw
+  refine stepRaw_only hi ht ?_ ?_
+  · rcases hd with hd | hd
+    · exact Or.inr (Or.inl ⟨rfl, hd.1, hd.2⟩)
+    · exact Or.inr (Or.inr (Or.inl ⟨rfl, hd.1, hd.2⟩))
+  · rintro x (⟨_, h1, h2⟩ | ⟨rfl, _⟩ | ⟨rfl, _⟩ | ⟨_, h1⟩)
+    · exact absurd h2 (hne h1)
+    · rfl
+    · rfl
+    · exact absurd h1 hr
+
+theorem stepRaw_empty {sch : Schema} {s : State} {op : Op} (hi : Inv sch s) (hw : WouldBeEmpty sch s op) :
     stepRaw sch s op = .error .nullNotAllowed := by
-  obtain ⟨id, e, ht, hne⟩ := hw
-  refine stepRaw_rejects ht ?_ ?_ ?_ ?_
-  · intro _
-    simp only [afterUpdate, Captured.none, bind, Except.bind, Map.lookup_insert, if_true, evalName]
-    rw [hne, uniqueAfter_null (Or.inl rfl)]
-  · intro old _
-    simp only [afterUpdate, capture, bind, Except.bind, Map.lookup_insert, if_true, evalName]
-    rw [hne, uniqueAfter_null (Or.inl rfl)]
-  · intro i v chk ht'; exact C03.stepRaw_empty hi.base ⟨id, e, ht', hne⟩
-  · intro i v ht'; exact C03.stepRaw_empty hi.base ⟨id, e, ht', hne⟩
+  obtain ⟨id, e, ht, hreg, hne, ha, hr⟩ := hw
+  refine stepRaw_only hi ht (Or.inl ⟨rfl, hreg, hne⟩) ?_
+  rintro x (⟨rfl, _⟩ | ⟨_, h1, _⟩ | ⟨_, h1, h2⟩ | ⟨_, h1⟩)
+  · rfl
+  · exact absurd (by simp [vName, hreg, hne]) h1
+  · exact absurd ⟨h1, h2⟩ ha
+  · exact absurd h1 hr
 
 /-! ### no panic -/
 
-theorem spec_putBoth_no_panic {t : Spec.SState} {id : Id} {e : Ent} {b : Bool} {x : Bytes} {es : List Err}
-    (h : Spec.putBoth t id e b x = .error es) : Err.panic ∉ es := by
-  unfold Spec.putBoth at h
+theorem listed_ne_panic {sch : Schema} {ents : Map Id Ent} {id : Id} {e : Ent} (h : Listed sch ents id e .panic) : False := by
+  rcases h with ⟨h, _⟩ | ⟨h, _⟩ | ⟨h, _⟩ | ⟨h, _⟩ <;> cases h
+
+theorem spec_put_no_panic {sch : Schema} {t : Spec.SState} {id : Id} {e : Ent} {b : Bool} {x : Option Bytes} {es : List Err}
+    (h : Spec.put sch t id e b x = .error es) : Err.panic ∉ es := by
+  unfold Spec.put at h
   split at h
   · cases h
-  · next es' hp => cases h; exact spec_put_no_panic hp
+  · next a l hv =>
+    cases h; rw [← hv]
+    intro hm
+    exact listed_ne_panic ((mem_violations _ _ _ _ _).1 hm)
 
 theorem spec_updateBoth_no_panic {sch : Schema} {t : Spec.SState} {id : Id} {v : Vals} {tag : Bytes}
     {chk : Option (List Bytes)} {es : List Err} (h : Spec.updateBoth sch t id v tag chk = .error es) : Err.panic ∉ es := by
@@ -164,25 +144,19 @@ theorem spec_updateBoth_no_panic {sch : Schema} {t : Spec.SState} {id : Id} {v :
     · cases h; simp
     · split at h
       · cases h; simp
-      · exact spec_putBoth_no_panic h
+      · exact spec_put_no_panic h
 
 theorem spec_step_no_panic {sch : Schema} {t : Spec.SState} {op : Op} {es : List Err}
     (h : Spec.step sch t op = .error es) : Err.panic ∉ es := by
   cases op with
   | create via id v tag =>
-    cases via with
-    | parent =>
-      simp only [Spec.step] at h
-      split at h
-      · cases h
-      · next es' hp => cases h; exact C03.spec_step_no_panic hp
-    | child =>
-      simp only [Spec.step] at h
+    cases via <;>
+    · simp only [Spec.step] at h
       split at h
       · cases h; simp
       · split at h
         · cases h; simp
-        · exact spec_putBoth_no_panic h
+        · exact spec_put_no_panic h
   | update via id v tag chk =>
     cases via with
     | child => exact spec_updateBoth_no_panic h
@@ -191,29 +165,107 @@ theorem spec_step_no_panic {sch : Schema} {t : Spec.SState} {op : Op} {es : List
       split at h
       · exact spec_updateBoth_no_panic h
       · split at h
-        · cases h
-        · next es' hp => cases h; exact C03.spec_step_no_panic hp
+        · cases h; simp
+        · split at h
+          · cases h; simp
+          · exact spec_put_no_panic h
   | delete via id =>
     simp only [Spec.step] at h
     split at h
-    · cases h
-    · next es' hp => cases h; exact C03.spec_step_no_panic hp
+    · cases h; simp
+    · split at h
+      · cases h; simp
+      · cases h
 
-theorem stepRaw_no_panic {sch : Schema} {s : State} {op : Op} (hi : Inv s) : stepRaw sch s op ≠ .error .panic := by
+theorem stepRaw_no_panic {sch : Schema} {s : State} {op : Op} (hi : Inv sch s) : stepRaw sch s op ≠ .error .panic := by
   intro h
-  have := stepRaw_refines (sch := sch) hi op
+  have := stepRaw_refines hi op
   rw [h] at this
   cases hs : Spec.step sch (abs s) op with
   | ok t => rw [hs] at this; exact this
   | error es => rw [hs] at this; exact spec_step_no_panic hs this
 
+/-! ### the path function -/
+
+/-- distinct symbols have distinct index buckets, whatever the base path -/
+theorem idxPath_injective (sch : Schema) (a b : Bytes) (h : idxPath sch a = idxPath sch b) : a = b := by
+  unfold idxPath at h
+  have := List.append_cancel_left h
+  simpa using this
+
+/-- no index bucket (nor anything below it) is an entity bucket (or anything below it) -/
+theorem idx_side_ne_ent_side (sch : Schema) (p q : List Bytes) :
+    sch.basePath ++ bIndexes :: p ≠ sch.basePath ++ bThings :: q := by
+  intro h
+  have := List.append_cancel_left h
+  simp [bIndexes, bThings] at this
+
 /-! ### dump = derived dump -/
 
-theorem setLines_eq {field : Bytes} {ents : Map Id Ent} {idx : Map Bytes (List Id)} (hsi : SI (·.roles) ents idx)
-    (hnek : NEK idx) (l : Line) :
-    l ∈ idx.entries.flatMap (renderSetKey field) ↔ l ∈ (C03.Spec.rolesIndex ents).flatMap (renderSetKey field) := by
+theorem mem_uniqueLines (path : List Bytes) (idx : Map Bytes Id) (l : Line) :
+    l ∈ idx.entries.flatMap (renderUnique path) ↔ ∃ v id, idx.lookup v = some id ∧ l = .kv path v id := by
+  simp only [List.mem_flatMap, renderUnique, List.mem_singleton, Prod.exists, Map.mem_entries_iff]
+
+theorem mem_specUnique (f : Ent → Bytes) (path : List Bytes) (ents : Map Id Ent) (l : Line) :
+    l ∈ (Spec.uniqueIndexOf f ents).flatMap (renderUnique path) ↔
+      ∃ i e, ents.lookup i = some e ∧ f e ≠ [] ∧ l = .kv path (f e) i := by
+  simp only [Spec.uniqueIndexOf, List.mem_flatMap, List.mem_filterMap, renderUnique, List.mem_singleton, Prod.exists,
+    Map.mem_entries_iff]
+  constructor
+  · rintro ⟨v, id, ⟨i, e, hl, hite⟩, rfl⟩
+    by_cases hz : f e = []
+    · simp [hz] at hite
+    · simp only [ne_eq, hz, not_false_eq_true, if_true, Option.some.injEq, Prod.mk.injEq] at hite
+      obtain ⟨rfl, rfl⟩ := hite
+      exact ⟨i, e, hl, hz, rfl⟩
+  · rintro ⟨i, e, hl, hz, rfl⟩
+    exact ⟨f e, i, ⟨i, e, hl, by simp [hz]⟩, rfl⟩
+
+theorem uniqueLines_eq {f : Ent → Bytes} {path : List Bytes} {ents : Map Id Ent} {idx : Map Bytes Id}
+    (hui : UI f ents idx) (l : Line) :
+    l ∈ idx.entries.flatMap (renderUnique path) ↔ l ∈ (Spec.uniqueIndexOf f ents).flatMap (renderUnique path) := by
+  rw [mem_uniqueLines, mem_specUnique]
+  constructor
+  · rintro ⟨v, id, h, rfl⟩
+    obtain ⟨hv, e, he, rfl⟩ := (hui v id).1 h
+    exact ⟨id, e, he, hv, rfl⟩
+  · rintro ⟨i, e, he, hz, rfl⟩
+    exact ⟨f e, i, (hui (f e) i).2 ⟨hz, e, he, rfl⟩, rfl⟩
+
+theorem mem_setLines (path : List Bytes) (idx : Map Bytes (List Id)) (l : Line) :
+    l ∈ idx.entries.flatMap (renderSetKey path) ↔
+      ∃ v ids, idx.lookup v = some ids ∧
+        (l = .bucket (path ++ [v]) ∨ ∃ i, i ∈ ids ∧ l = .kv (path ++ [v]) (typed i) []) := by
+  simp only [List.mem_flatMap, renderSetKey, List.mem_cons, List.mem_map, Prod.exists, Map.mem_entries_iff]
+  constructor
+  · rintro ⟨v, ids, h, h2 | ⟨i, hi, rfl⟩⟩
+    · exact ⟨v, ids, h, Or.inl h2⟩
+    · exact ⟨v, ids, h, Or.inr ⟨i, hi, rfl⟩⟩
+  · rintro ⟨v, ids, h, h2 | ⟨i, hi, rfl⟩⟩
+    · exact ⟨v, ids, h, Or.inl h2⟩
+    · exact ⟨v, ids, h, Or.inr ⟨i, hi, rfl⟩⟩
+
+theorem mem_setIndexOf (r : Ent → List Bytes) (ents : Map Id Ent) (v : Bytes) (ids : List Id) :
+    (v, ids) ∈ Spec.setIndexOf r ents ↔
+      (∃ i e, ents.lookup i = some e ∧ v ∈ r e) ∧
+      ids = (ents.entries.filter (fun p => decide (v ∈ r p.2))).map (·.1) := by
+  simp only [Spec.setIndexOf, List.mem_map, List.mem_flatMap, Prod.exists, Map.mem_entries_iff, Prod.mk.injEq]
+  constructor
+  · rintro ⟨w, ⟨i, e, hl, hm⟩, rfl, rfl⟩; exact ⟨⟨i, e, hl, hm⟩, rfl⟩
+  · rintro ⟨⟨i, e, hl, hm⟩, rfl⟩; exact ⟨v, ⟨i, e, hl, hm⟩, rfl, rfl⟩
+
+theorem mem_setIds (r : Ent → List Bytes) (ents : Map Id Ent) (v : Bytes) (i : Id) :
+    i ∈ (ents.entries.filter (fun p => decide (v ∈ r p.2))).map (·.1) ↔ ∃ e, ents.lookup i = some e ∧ v ∈ r e := by
+  simp only [List.mem_map, List.mem_filter, decide_eq_true_eq, Prod.exists, Map.mem_entries_iff]
+  constructor
+  · rintro ⟨a, e, ⟨hl, hm⟩, rfl⟩; exact ⟨e, hl, hm⟩
+  · rintro ⟨e, hl, hm⟩; exact ⟨i, e, ⟨hl, hm⟩, rfl⟩
+
+theorem setLines_eq {r : Ent → List Bytes} {path : List Bytes} {ents : Map Id Ent} {idx : Map Bytes (List Id)}
+    (hsi : SI r ents idx) (hnek : NEK idx) (l : Line) :
+    l ∈ idx.entries.flatMap (renderSetKey path) ↔ l ∈ (Spec.setIndexOf r ents).flatMap (renderSetKey path) := by
   rw [mem_setLines]
-  simp only [List.mem_flatMap, renderSetKey, List.mem_cons, List.mem_map, Prod.exists, mem_rolesIndex]
+  simp only [List.mem_flatMap, renderSetKey, List.mem_cons, List.mem_map, Prod.exists, mem_setIndexOf]
   constructor
   · rintro ⟨v, ids, hl, hline⟩
     have hne := hnek v ids hl
@@ -223,7 +275,7 @@ theorem setLines_eq {field : Bytes} {ents : Map Id Ent} {idx : Map Bytes (List I
     rcases hline with h | ⟨i, hi, rfl⟩
     · exact Or.inl h
     · refine Or.inr ⟨i, ?_, rfl⟩
-      exact (mem_rolesIds ents v i).2 ((hsi v i).1 (by simp [hl, hi]))
+      exact (mem_setIds r ents v i).2 ((hsi v i).1 (by simp [hl, hi]))
   · rintro ⟨v, ids', ⟨⟨i0, e0, h0, hm0⟩, rfl⟩, hline⟩
     have hmem := (hsi v i0).2 ⟨e0, h0, hm0⟩
     cases hl : idx.lookup v with
@@ -233,14 +285,13 @@ theorem setLines_eq {field : Bytes} {ents : Map Id Ent} {idx : Map Bytes (List I
       rcases hline with h | ⟨i, hi, rfl⟩
       · exact Or.inl h
       · refine Or.inr ⟨i, ?_, rfl⟩
-        have := (hsi v i).2 ((mem_rolesIds ents v i).1 hi)
+        have := (hsi v i).2 ((mem_setIds r ents v i).1 hi)
         simpa [hl] using this
 
-theorem render_eq_spec_lines {sch : Schema} {s : State} (hi : Inv s) (l : Line) :
+theorem render_eq_spec_lines {sch : Schema} {s : State} (hi : Inv sch s) (l : Line) :
     l ∈ Render sch s ↔ l ∈ Spec.render sch (abs s) := by
-  unfold Render Spec.render abs C03.abs C03.Spec.nameIndex C03.Spec.aliasIndex
+  unfold Render Spec.render abs Spec.nameIndex Spec.aliasIndex Spec.rolesIndex
   simp only [List.mem_append]
-  rw [uniqueLines_eq (f := (·.name)) hi.base.uName, uniqueLines_eq (f := fun e => e.alias.getD []) hi.base.uAlias,
-    setLines_eq hi.base.sRoles hi.base.noEmptyKeys]
+  rw [uniqueLines_eq hi.base.uName, uniqueLines_eq hi.base.uAlias, setLines_eq hi.base.sRoles hi.base.noEmptyKeys]
 
 end StorageModel.C03.Layered
